@@ -476,6 +476,11 @@ pub fn pattern_descr(c: &FloodCase) -> String {
     format!("unit-flood[{};app={}{}]", kinds.join("+"), app, blocked)
 }
 
+fn known() -> &'static crate::runner::Known {
+    static K: std::sync::OnceLock<crate::runner::Known> = std::sync::OnceLock::new();
+    K.get_or_init(|| crate::runner::Known::load(&std::path::PathBuf::from(std::env::var("VERIF_ROOT").unwrap_or_else(|_| "/verif".into()))))
+}
+
 pub struct FloodEngine;
 
 impl Engine for FloodEngine {
@@ -529,7 +534,7 @@ impl Engine for FloodEngine {
         FloodCase { pattern, n, client, cfg, accept_limit: if client { None } else { *t.pick(&[None, None, Some(0), Some(3)]) }, block_writes, params, sched, chunk }
     }
     fn rule(&self) -> String {
-        "a hostile pattern (open-and-reset before/after accept, streams over the limit, CONTINUATION flood, empty/1-byte DATA flood, PING/SETTINGS floods with the endpoint's writes blocked, growing header list, DATA on closed streams, malformed requests reset by the library, WINDOW_UPDATE/PRIORITY/unknown-frame floods; against a client: PUSH_PROMISE, 1xx and stray RST_STREAM floods) with generated limits, accept behaviour (normal / after 3 / never) and chunking is run with n, 2n and 4n repetitions (n ≥ 600); plateau oracle: running maxima and final values of stream records, buffered receive events, queued send frames and bytes consumed while writes are blocked must not grow over both doublings unless the connection was terminated with an error; non-trivial = the pattern was delivered completely or the endpoint terminated the connection".into()
+        "a hostile pattern (open-and-reset before/after accept, streams over the limit, CONTINUATION flood, empty/1-byte DATA flood, PING/SETTINGS floods with the endpoint's writes blocked, growing header list, DATA on closed streams, malformed requests reset by the library, WINDOW_UPDATE/PRIORITY/unknown-frame floods; against a client: PUSH_PROMISE, 1xx and stray RST_STREAM floods) with generated limits, accept behaviour (normal / after 3 / never) and chunking is run with n, 2n and 4n repetitions (n ≥ 600; doubled further, up to 32n, while something still grows and it is not a recorded finding); plateau oracle: running maxima and final values of stream records, buffered receive events, queued send frames and bytes consumed while writes are blocked must not grow over both doublings unless the connection was terminated with an error; non-trivial = the pattern was delivered completely or the endpoint terminated the connection".into()
     }
     fn shrink_iters(&self) -> u32 {
         60
@@ -565,32 +570,64 @@ impl Engine for FloodEngine {
             return out;
         }
         let role = if c.client { "client" } else { "server" };
-        let slack = 2usize;
-        let mut chk = |what: &str, a: usize, b: usize, d: usize| {
-            // growth over both doublings: a quota first crossed between n and 2n shows as growth followed by a plateau
-            let slack = if what.starts_with("heap") { 8192 } else { slack };
+        // growth over both doublings: a quota first crossed between n and 2n shows as growth followed by a plateau
+        let grows = |what: &str, a: usize, b: usize, d: usize| -> bool {
+            let slack = if what.starts_with("heap") { 8192 } else { 2 };
             let grow = |a: usize, b: usize| b > a + slack && b as f64 > a as f64 * 1.25;
-            if grow(a, b) && grow(b, d) {
-                out.fail(
-                    "C18",
-                    "plateau",
-                    format!("C18/{}/{}/{}-grows-with-flood-length", role, descr, what),
-                    format!("pattern {} (accept_limit {:?}, max_concurrent {:?}): {} is {} after n={} repetitions, {} after 2n and {} after 4n, with the connection still up and no error signalled", c.pattern, c.accept_limit, c.cfg.max_concurrent, what, a, c.n, b, d),
-                );
-            }
+            grow(a, b) && grow(b, d)
         };
-        chk("stream-records", p1.streams, p2.streams, p4.streams);
-        chk("buffered-receive-events", p1.recv_events, p2.recv_events, p4.recv_events);
-        chk("queued-send-frames", p1.send_frames, p2.send_frames, p4.send_frames);
-        chk("stream-records-at-end", p1.end_streams, p2.end_streams, p4.end_streams);
-        chk("buffered-receive-events-at-end", p1.end_recv_events, p2.end_recv_events, p4.end_recv_events);
-        chk("queued-send-frames-at-end", p1.end_send_frames, p2.end_send_frames, p4.end_send_frames);
-        chk("heap-bytes-of-connection-task-peak", p1.heap_peak, p2.heap_peak, p4.heap_peak);
-        chk("heap-bytes-of-connection-task-at-end", p1.heap_end, p2.heap_end, p4.heap_end);
-        // every repetition of these patterns obliges the endpoint to a reply: it cannot go on reading without bound
-        // while it cannot write
-        if c.block_writes && matches!(c.pattern.as_str(), "ping-flood" | "settings-flood" | "headers-then-reset-by-error" | "streams-over-limit") {
-            chk("bytes-consumed-while-writes-blocked", p1.consumed_blocked, p2.consumed_blocked, p4.consumed_blocked);
+        let reply_obliged = c.block_writes && matches!(c.pattern.as_str(), "ping-flood" | "settings-flood" | "headers-then-reset-by-error" | "streams-over-limit");
+        let metrics = |p: &Peak| -> Vec<(&'static str, usize)> {
+            let mut v = vec![
+                ("stream-records", p.streams),
+                ("buffered-receive-events", p.recv_events),
+                ("queued-send-frames", p.send_frames),
+                ("stream-records-at-end", p.end_streams),
+                ("buffered-receive-events-at-end", p.end_recv_events),
+                ("queued-send-frames-at-end", p.end_send_frames),
+                ("heap-bytes-of-connection-task-peak", p.heap_peak),
+                ("heap-bytes-of-connection-task-at-end", p.heap_end),
+            ];
+            // every repetition of these patterns obliges the endpoint to a reply: it cannot go on reading without bound
+            // while it cannot write
+            if reply_obliged {
+                v.push(("bytes-consumed-while-writes-blocked", p.consumed_blocked));
+            }
+            v
+        };
+        let growing = |a: &Peak, b: &Peak, d: &Peak| -> Vec<(&'static str, usize, usize, usize)> {
+            metrics(a).into_iter().zip(metrics(b)).zip(metrics(d)).filter(|(((w, x), (_, y)), (_, z))| grows(w, *x, *y, *z)).map(|(((w, x), (_, y)), (_, z))| (w, x, y, z)).collect()
+        };
+        let (mut pa, mut pb, mut pd) = (p1, p2, p4);
+        let mut m = 4 * c.n;
+        let mut g = growing(&pa, &pb, &pd);
+        // a quota may lie beyond 4n (h2 tolerates 1024 locally detected stream errors, for instance): as long as
+        // something still grows, and it is not a recorded finding, the flood is doubled again — up to 32n — and only
+        // growth that persists to the end counts
+        let is_known = |g: &Vec<(&'static str, usize, usize, usize)>| g.iter().any(|(w, _, _, _)| known().matches(&crate::runner::Violation::new("C18", "plateau", format!("C18/{}/{}/{}-grows-with-flood-length", role, descr, w), String::new())).is_some());
+        while !g.is_empty() && !is_known(&g) && m < 32 * c.n && m < 150_000 {
+            m *= 2;
+            let cm = build(c, m);
+            let rm = run_raw(&cm);
+            let pm = measure(&cm, &rm);
+            out.label("escalated");
+            if pm.panic || pm.terminated {
+                out.label("terminated-with-error");
+                out.note = format!("{} ; {}n → {:?}", out.note, m / c.n, pm);
+                return out;
+            }
+            pa = pb;
+            pb = pd;
+            pd = pm;
+            g = growing(&pa, &pb, &pd);
+        }
+        for (what, a, b, d) in g {
+            out.fail(
+                "C18",
+                "plateau",
+                format!("C18/{}/{}/{}-grows-with-flood-length", role, descr, what),
+                format!("pattern {} (accept_limit {:?}, max_concurrent {:?}): {} is {} after {} repetitions, {} after {} and {} after {}, with the connection still up and no error signalled", c.pattern, c.accept_limit, c.cfg.max_concurrent, what, a, m / 4, b, m / 2, d, m),
+            );
         }
         out
     }
